@@ -431,6 +431,10 @@ class State:
         self.notes = []
         self.cut = None
 
+    def add_pc(self, cond, truth, site):
+        # (condition, outcome, site, number of events recorded before the branch)
+        self.pc.append((cond, truth, site, len(self.events)))
+
     def fork(self):
         s = State.__new__(State)
         s.mem = dict(self.mem)
@@ -619,8 +623,20 @@ class Interp:
         return self.read_place(st, frame, op.place)
 
     # ------------------------------------------------------------ facts
-    def decide_cmp(self, st, op, a, b):
+    def type_range(self, st, v, oty):
+        """a bare term of unsigned type lies in [0, 2^bits-1]"""
+        if oty in INT_BITS and not oty.startswith("i") and isinstance(v, tuple) and v and v[0] not in ("lin", "top"):
+            key, f = canon({v: 1})
+            iv = st.iv.get(key)
+            if iv is None or iv.lo == -INF or iv.hi == INF:
+                iv = iv or Interval()
+                st.iv[key] = Interval(max(iv.lo, 0), min(iv.hi, (1 << INT_BITS[oty]) - 1), iv.excl)
+
+    def decide_cmp(self, st, op, a, b, oty=None):
         """-> True/False/None ; comparison of two values under the path facts"""
+        if oty:
+            self.type_range(st, a, oty)
+            self.type_range(st, b, oty)
         la, lb = to_lin(a), to_lin(b)
         if la is None or lb is None:
             if op in ("Eq", "Ne"):
@@ -648,8 +664,11 @@ class Interp:
         # key*f + c op 0 ; with integer key
         return decide_scaled(iv, op, f, -c)
 
-    def assume_cmp(self, st, op, a, b, truth):
+    def assume_cmp(self, st, op, a, b, truth, oty=None):
         """record the fact (a op b) == truth; returns False if infeasible"""
+        if oty:
+            self.type_range(st, a, oty)
+            self.type_range(st, b, oty)
         la, lb = to_lin(a), to_lin(b)
         if la is None or lb is None:
             return True
@@ -709,7 +728,7 @@ class Interp:
                 if isinstance(a, int):
                     return 0 if a else 1
                 if isinstance(a, tuple) and a and a[0] == "cmp":
-                    return ("cmp", CMP_NEG[a[1]], a[2], a[3])
+                    return ("cmp", CMP_NEG[a[1]], a[2], a[3], a[4])
                 if isinstance(a, tuple) and a and a[0] == "not":
                     return a[1]
                 return ("not", tform(a))
@@ -811,10 +830,10 @@ class Interp:
                 return TupleV([r, ("ovf", base, tform(a), tform(b), site) if not isinstance(r, int) else 0])
             return r
         if base in CMP_FLIP:
-            d = self.decide_cmp(st, base, a, b)
+            d = self.decide_cmp(st, base, a, b, oty)
             if d is not None:
                 return 1 if d else 0
-            return ("cmp", base, tform(a), tform(b))
+            return ("cmp", base, tform(a), tform(b), oty)
         if base in ("BitAnd", "BitOr", "BitXor") and isinstance(a, int) and isinstance(b, int):
             return {"BitAnd": a & b, "BitOr": a | b, "BitXor": a ^ b}[base]
         if base in ("Div", "Rem", "Shl", "Shr") and isinstance(a, int) and isinstance(b, int) and b != 0:
@@ -947,14 +966,14 @@ class Interp:
                     return [("go", st, b)]
         out = []
         if isinstance(v, tuple) and v and v[0] == "cmp":
-            _, op, a, b = v
-            d = self.decide_cmp(st, op, a, b)
+            _, op, a, b, oty = v
+            d = self.decide_cmp(st, op, a, b, oty)
             if d is not None:
                 return self.do_switch_const(st, t, 1 if d else 0)
             for truth in (0, 1):
                 s2 = st.fork()
-                if self.assume_cmp(s2, op, a, b, bool(truth)):
-                    s2.pc.append((v, bool(truth), site))
+                if self.assume_cmp(s2, op, a, b, bool(truth), oty):
+                    s2.add_pc(v, bool(truth), site)
                     out.extend(self.do_switch_const(s2, t, truth))
             return out
         if isinstance(v, tuple) and v and v[0] == "discr":
@@ -967,12 +986,12 @@ class Interp:
                     continue
                 s2 = st.fork()
                 s2.discr[term] = val
-                s2.pc.append((v, val, site))
+                s2.add_pc(v, val, site)
                 out.append(("go", s2, b))
             if not self.block_unreachable(body, other):
                 s2 = st.fork()
                 s2.discr[term] = ("not", excl | frozenset(vals))
-                s2.pc.append((v, ("not", tuple(vals)), site))
+                s2.add_pc(v, ("not", tuple(vals)), site)
                 out.append(("go", s2, other))
             return out
         if v == TOP or not isinstance(v, tuple):
@@ -988,7 +1007,7 @@ class Interp:
                 continue
             s2 = st.fork()
             if self.assume_cmp(s2, "Eq", v, val, True):
-                s2.pc.append((("cmp", "Eq", v, val), True, site))
+                s2.add_pc(("cmp", "Eq", v, val, None), True, site)
                 out.append(("go", s2, b))
             if d is True:
                 return out
@@ -999,7 +1018,7 @@ class Interp:
                 if not self.assume_cmp(s2, "Ne", v, val, True):
                     ok = False
             if ok:
-                s2.pc.append((("notin", v, tuple(val for val, _ in targets)), True, site))
+                s2.add_pc(("notin", v, tuple(val for val, _ in targets)), True, site)
                 out.append(("go", s2, other))
         return out
 
@@ -1232,7 +1251,7 @@ def split_result(I, st, v):
                 continue
             s2 = st.fork()
             s2.discr[v] = d
-            s2.pc.append((("discr", v), d, None))
+            s2.add_pc(("discr", v), d, None)
             out.append((s2, name, ("field", ("as", v, name), "0")))
         return out
     return [(st.fork(), "Ok", TOP), (st.fork(), "Err", TOP)]
@@ -1251,7 +1270,7 @@ def split_option(I, st, v):
                 continue
             s2 = st.fork()
             s2.discr[v] = d
-            s2.pc.append((("discr", v), d, None))
+            s2.add_pc(("discr", v), d, None)
             out.append((s2, name, ("field", ("as", v, "Some"), "0") if name == "Some" else None))
         return out
     return [(st.fork(), "Some", TOP), (st.fork(), "None", None)]
@@ -1377,7 +1396,7 @@ def m_eq(I, st, t, args, site, depth):
         return [(st, 1 if d else 0)]
     if isinstance(a, Struct) or isinstance(b, Struct):
         return None
-    return [(st, ("cmp", op, tform(a), tform(b)))]
+    return [(st, ("cmp", op, tform(a), tform(b), None))]
 
 
 def m_discriminant_value(I, st, t, args, site, depth):
